@@ -6,9 +6,12 @@ check("C12", "model_checking",
       "random larger module sets are validated by TLC from the recorded splice events; generated programs split into 2-4 files are "
       "compiled, linked and executed in every file order against the single file, and modules are compiled alone and after an unrelated "
       "module through one Compiler, the records being evaluated by TLC.",
-      "Trusted: TLC, the rule R in spec/Modules.tla, the renderer, lli as executor. Bound: quick <= 3 modules x 1 declaration and 2 x 2, "
-      "thorough 3 x 2; all import relations incl. self/mutual; random sets <= 5 modules x 3 declarations with a sub-directory; 90 (1200) "
-      "programs x 2 partition modes x all file orders; 120 (1500) histories. Not decided here: the ORDER of spliced declarations and the "
+      "Trusted: TLC, the rule R in spec/Modules.tla, the renderer, lli as executor. Bound: quick <= 3 modules x 1 declaration, 2 x 2 (import lines at every position, "
+      "also written twice) and 4 x 1 with at most one private declaration (code's splice order only), thorough 3 x 2; declarations are "
+      "functions, heads, constants, structures/words, every second one extern; all import relations incl. self/mutual; random sets <= 6 "
+      "modules x 3 declarations in two sub-directories, equal file names in different directories, doubled imports; 90 (1200) programs x "
+      "2 partition modes x all file orders (every third split: 4-7 files, 10 orders, equal private names, an unrelated module compiled "
+      "along); 120 (1500) histories (a faulty module, two unrelated modules). Not decided here: the ORDER of spliced declarations and the "
       "IR text, which depend on HashSet iteration order (a separate configuration shows the non-confluence; it belongs to C13). "
       "Split equivalence is sampled (generated programs), not exhaustive.",
       "TLA+ spec (Modules.tla: rule, Splice nondeterminism, Gen) + TLC, replay of every input, TLC trace validation of splice hook "
